@@ -24,6 +24,7 @@ UNIVERSES = {
     "bigneg": [-7, -1, 0, 3, 2**31 + 7, 2**40, -(2**33), 12],
     "hashy": [-1, -2, 0, 2**61 - 1, 1, 2**61, -3, 5],  # pairs of distinct labels with equal hash()
     "str": ["a", "b", "E1", "N2", "10", "n", "zz", "E"],
+    "ids": ["N1", "N0", "E0", "N3", "N2", "E1", "N10", "E2"],  # labels that look like the vertex ids projections generate, not in index order
     "npint": [np.int64(i) for i in (0, 1, 2, 5, 9, 11, 30, 31)],
     "float": [0.5, 1.5, -2.25, 3.0, 10.0, 7.75, 1e9, 0.1],
     "intfloat": [1, 2.5, 3, 4.5, -1, 0.25, 100, 7],
